@@ -113,6 +113,7 @@ Holds(t, p, row) ==
       [] p.op = "gt"    -> CellLess(p.val, c)
       [] p.op = "le"    -> ~CellLess(p.val, c)
       [] p.op = "coleq" -> c = row[Idx(t.header, Txt(p.val)[1])]    \* val names the other column
+      [] p.op = "colgt" -> CellLess(row[Idx(t.header, Txt(p.val)[1])], c)   \* row[0] > row[1]: not symmetric
 
 FilteredRows(t, p) == SelectSeq(t.rows, LAMBDA r : Holds(t, p, r))
 FilteredTable(t, p) == [header |-> t.header, rows |-> FilteredRows(t, p)]
@@ -124,6 +125,13 @@ Counts(t, cols) ==
 
 (* ---- get_columns(columns) ---- *)
 ColumnsTable(t, cols) == [header |-> cols, rows |-> Map(t.rows, LAMBDA r : KeyOf(t, cols, r))]
+(* get_columns(cols) of a table with an index column also returns that column, first (documented); *)
+(* to_list(cols) gives the values in the order asked for                                           *)
+WithIndexFirst(t, cols) == IF t.index = "" THEN cols
+                           ELSE <<t.index>> \o SelectSeq(cols, LAMBDA c : c # t.index)
+GetColumnsResult(t, cols) ==
+    LET g == ColumnsTable(t, WithIndexFirst(t, cols)) IN
+    [header |-> g.header, rows |-> g.rows, listed |-> ColumnsTable(t, cols).rows]
 
 (* ---- with_new_column(new, callback, columns) ---- *)
 Derived(t, f, row) ==
@@ -234,6 +242,10 @@ UnarySchemas ==
 
 UnaryTables(profile) == UNION {TablesOf(e[1], 0, e[2], T1) : e \in UnarySchemas}
 
+(* small tables are also taken with each column that can index them as index_name *)
+UnaryIndexRows == IF Profile = "quick" THEN 2 ELSE 3
+UnaryIndexChoices(t) == IF Len(t.rows) <= UnaryIndexRows THEN IndexChoices(t) ELSE {""}
+
 (* pairs for joins / appended: duplicate keys on both sides, a missing key value *)
 LeftSchema  == IF Profile = "quick"
                THEN <<<<"k", Ints2>>, <<"s", Strs2>>>>
@@ -285,6 +297,9 @@ Preds(t) ==
     UNION {{[col |-> c, op |-> o, val |-> v] : o \in {"eq", "ne"}, v \in Probe(t, c) \cup {None}} : c \in Range(t.header)}
     \cup UNION {{[col |-> c, op |-> o, val |-> v] : o \in {"gt", "le"}, v \in Probe(t, c) \ {None}} :
                    c \in {d \in Sortable(t) : TypeOfCol(t, d) \in {"i", "f", "s"}}}
+    \cup UNION {{[col |-> c, op |-> "colgt", val |-> S(<<d>>)] :
+                    d \in {e \in Sortable(t) : e # c /\ TypeOfCol(t, e) = TypeOfCol(t, c)}} :
+                 c \in {e \in Sortable(t) : TypeOfCol(t, e) \in {"i", "f", "s"}}}
     \cup UNION {{[col |-> c, op |-> "coleq", val |-> S(<<d>>)] :
                     d \in {e \in Range(t.header) : e # c /\ TypeOfCol(t, e) = TypeOfCol(t, c)}} : c \in Range(t.header)}
 
@@ -341,7 +356,7 @@ Filtered(p)  == FilteredT(p) /\ Log("Filtered", <<p>>, SizeClass(tab))
 UniqueT(cols) == Once([counts |-> Counts(tab, cols), distinct |-> Keys(tab, cols)])
 UniqueV(cols) == UniqueT(cols) /\ Log("Unique", <<cols>>, SizeClass(tab))
 
-GetColumnsT(cols) == Once(ColumnsTable(tab, cols))
+GetColumnsT(cols) == Once(GetColumnsResult(tab, cols))
 GetColumns(cols)  == GetColumnsT(cols) /\ Log("GetColumns", <<cols>>, SizeClass(tab))
 
 WithNewColumnT(f) == Once(NewColumnTable(tab, "n", f))
@@ -380,7 +395,9 @@ NaturalJoinRenamed(px)  == NaturalJoinRenamedT(px) /\
 
 Init == /\ res = [init |-> TRUE]
         /\ done = FALSE
-        /\ CASE Group = "unary"  -> tab \in UnaryTables(Profile) /\ oth = "-"
+        /\ CASE Group = "unary"  -> /\ \E t \in UnaryTables(Profile) : \E ix \in UnaryIndexChoices(t) :
+                                             tab = WithIndex(t, ix)
+                                        /\ oth = "-"
              [] Group = "big"    -> tab \in BigTables(Profile) /\ oth = "-"
              [] Group = "binary" -> \E p \in BinaryPairs(Profile) : \E ix \in IndexPairs(p) :
                                         tab = WithIndex(p[1], ix[1]) /\ oth = WithIndex(p[2], ix[2])
